@@ -67,7 +67,11 @@ J gen(uint64_t seed, bool thorough) {
   plan["v"] = 1; plan["property"] = "C20"; plan["seed"] = (long long)seed;
   J sc = J::obj();
   J e = J::obj(); ec.to_json(e); sc["engine"] = e;
-  sc["config"] = global_config((int)r.range(1, 3), 0, false);
+  // a quarter of the plans let the engine's scripted-force callback act at every step (before or after the biases): it adds an energy and
+  // a force on the first variable through the script interface, as a Tcl calc_colvar_forces procedure would
+  bool scripted = r.chance(0.25);
+  sc["config"] = global_config((int)r.range(1, 3), 0, false) + (scripted ? std::string("scriptedColvarForces on\nscriptingAfterBiases ") + (r.chance(0.5) ? "on" : "off") + "\n" : std::string());
+  sc["scripted"] = scripted; sc["scripted_energy"] = std::round(r.uniform(0.5, 5) * 100) / 100; sc["scripted_force"] = std::round(r.uniform(-2, 2) * 100) / 100;
   sc["T"] = (long long)T;
   J ops = J::arr();
   struct LiveCv { std::string name; CvSpec spec; std::pair<double, double> range; bool combo = false; };
@@ -336,6 +340,15 @@ Outcome execute(J const &plan, bool alt_route, bool test) {
   std::unique_ptr<Engine> e(new Engine(ec));
   e->configure(config);
   Engine *ep = e.get();
+  if (plan.at("scenario").has("scripted") && plan.at("scenario").at("scripted").as_bool()) {
+    std::string en = num(plan.at("scenario").at("scripted_energy").as_num()), fo = num(plan.at("scenario").at("scripted_force").as_num());
+    e->force_callback = [ep, en, fo, &out]() {
+      ep->run_script({"cv", "addenergy", en});
+      if (!cvm::main()->variables()->empty()) ep->run_script({"cv", "colvar", (*cvm::main()->variables())[0]->name, "addforce", fo});
+      out.cmd_used["callback_addenergy"]++;
+      return COLVARS_OK;
+    };
+  }
   bool failed_before = false;   // a command returned an error since the last step
   bool roundtrip_done = false;   // a state was reloaded: a later consistency complaint (value vs restart value) is compared between the routes, not attributed here
   bool fresh_definition = false; // an object was defined since the last step (its value has never been computed)
